@@ -207,7 +207,10 @@ def join(a, b):
             return ("int", None, a[2])
         return ("int", None)
     if ka == "coll":
-        return ("coll", join(a[1], b[1]), join(a[2], b[2]), a[3] | b[3])
+        tags = (a[3] | b[3]) - {"ne"}
+        if "ne" in a[3] and "ne" in b[3]:
+            tags = tags | {"ne"}          # 'known to be non-empty' is a must-property: it survives a join only if both sides have it
+        return ("coll", join(a[1], b[1]), join(a[2], b[2]), frozenset(tags))
     if ka == "iter":
         t = join_tmpl(a[1], b[1])
         return TOP if t is None else ("iter", t)
